@@ -839,6 +839,47 @@ def readinto_delivers_all(chk, rule: str, cname: str):
               f"{[src(s_) for s_ in stores]}: bytes of the segment that are not stored are gone (the segment was already consumed from the bus); the caller gets data with bytes missing "
               f"and no error")
     chk.check(len(rets) == 1 and src(rets[0].value) == f"len({d})", rule, f"{CL}:{cname}.readinto | reports the segment's length", f.loc(), f"{[src(r) for r in rets]}")
+    # ... which presupposes that the buffer handed to readinto() holds a whole segment: the BufferedReader that open() puts on top of
+    # the stream asks for `buffer_size` bytes at a time, so every buffering value open() accepts must give it at least 7 bytes
+    op = repo.func(CL, "SdoClient.open", f"{chk.prop}.{rule}")
+    chk.saw(op)
+    readers = [c for c in own_nodes(op.node) if isinstance(c, ast.Call) and (dotted(c.func) or "").endswith("BufferedReader")]
+    chk.floor(rule, len(readers), 1, "io.BufferedReader in SdoClient.open")
+    for c in readers:
+        size_e = next((k.value for k in c.keywords if k.arg == "buffer_size"), c.args[1] if len(c.args) > 1 else None)
+        if size_e is None:
+            chk.ok(rule, f"{CL}:SdoClient.open | the read buffer holds a whole segment", op.loc(c), "default buffer size")
+            continue
+        defs = {}
+        for n in own_nodes(op.node):
+            if isinstance(n, ast.Assign) and len(n.targets) == 1 and isinstance(n.targets[0], ast.Name):
+                defs.setdefault(n.targets[0].id, []).append(n.value)
+        small = []
+        undecided = None
+        for k in (2, 3, 4, 5, 6, 7, 8, 64, 1024, -1):
+            env = {"buffering": k, "io": None}
+            try:
+                for nm, vs in defs.items():
+                    if len(vs) == 1 and any(isinstance(x, ast.Name) and x.id == nm for x in ast.walk(size_e)):
+                        env[nm] = _fold_io(folder, op, vs[0], env)
+                v = _fold_io(folder, op, size_e, env)
+            except Exception as e:  # noqa
+                undecided = str(e)
+                break
+            if isinstance(v, int) and 0 < v < 7:
+                small.append((k, v))
+        if undecided is not None:
+            chk.unk(rule, f"{CL}:SdoClient.open | the read buffer holds a whole segment", op.loc(c), f"`{src(size_e)}` does not evaluate for the buffering values: {undecided}")
+        else:
+            chk.check(not small, rule, f"{CL}:SdoClient.open | the read buffer holds a whole segment", op.loc(c),
+                      f"open(..., buffering={small[0][0] if small else ''}) gives the BufferedReader {small[0][1] if small else ''} bytes: readinto() then has to store a 7-byte segment into a "
+                      f"shorter buffer, `{bp}[:len({d})] = {d}` raises ValueError and the upload fails for a caller that reads in chunks")
+
+
+def _fold_io(folder, func, expr, env):
+    """fold an expression of SdoClient.open with `io.DEFAULT_BUFFER_SIZE` taken as 8192"""
+    e2 = ast.parse(src(expr).replace("io.DEFAULT_BUFFER_SIZE", "8192"), mode="eval").body
+    return folder.fold(e2, Scope(func.mod, None, dict(env)))
 
 
 def pdo_subscribe(chk, rule: str):
